@@ -28,6 +28,7 @@ import dns.rdata
 import dns.rdataclass
 import dns.rdataset
 import dns.rdatatype
+import dns.rrset
 import dns.transaction
 import dns.versioned
 import dns.zone
@@ -700,9 +701,19 @@ TREE = ["@", "sub", "a.sub", "b.a.sub", "c.b.a.sub", "x.sub", "other", "y.other"
 TREE_NAMES = [dns.name.empty if t == "@" else dns.name.from_text(t, None) for t in TREE]
 
 
+def spelled(zone, name, other):
+    """`name` (relative, as in TREE_NAMES) in the zone's own spelling, or - `other` - in the spelling the zone does not
+    store: absolute in a relativizing zone, relative in a zone that keeps absolute names.  Both are legal arguments of
+    every writer call; the zone validates (relativizes / derelativizes) them"""
+    own_abs = not zone.relativize
+    return name.derelativize(ORIGIN) if (own_abs != bool(other)) else name
+
+
 def apply_wop(txn, op):
     kind, i = op[0], op[1]
-    name = TREE_NAMES[i]
+    zone = txn.manager
+    key = spelled(zone, TREE_NAMES[i], False)            # the key under which the zone stores the node
+    name = spelled(zone, TREE_NAMES[i], (op[2] + i) % 2 if len(op) > 2 else 0)  # what the caller writes
     if kind == "ns":
         txn.replace(name, dns.rdataset.from_text("IN", "NS", 300, f"ns{op[2] % 3}.sub.example."))
     elif kind == "delns":
@@ -728,10 +739,18 @@ def apply_wop(txn, op):
         node = txn.get_node(name)
         for rds in list(node) if node is not None else []:
             txn.delete(name, rds.rdtype, rds.covers)
+    elif kind == "rrset":
+        txn.replace(dns.rrset.from_text(name, 60, "IN", "TXT", f'"r{op[2]}"'))
+    elif kind == "ttlrd":
+        txn.add(name, 45, dns.rdata.from_text("IN", "A", "10.2.%d.%d" % (op[2] // 250 % 250, op[2] % 250)))
+    elif kind == "delexact":
+        node = txn.get_node(name)
+        for rds in list(node)[:1] if node is not None else []:
+            txn.delete_exact(name, rds)
     elif kind == "nodeapi":
         # node-level API on the writer's own (copied) node: empty it without going through the transaction
         txn.replace(name, dns.rdataset.from_text("IN", "TXT", 60, f'"n{op[2]}"'))
-        node = txn.version.nodes[name]
+        node = txn.version.nodes[key]
         for rds in list(node.rdatasets):
             node.delete_rdataset(rds.rdclass, rds.rdtype, rds.covers)
     else:
@@ -888,7 +907,7 @@ def fmt_args(args):
 
 def eval_immhist(ctx: Ctx, case: dict):
     zk = case["zone"]
-    z = ZONES[zk](ORIGIN)
+    z = ZONES[zk](ORIGIN, relativize=not case.get("abs", False))
     if case.get("keep_all", True):
         z.set_max_versions(None)
     readers = {}
@@ -899,8 +918,9 @@ def eval_immhist(ctx: Ctx, case: dict):
     for ti, ops in enumerate(case["txns"]):
         with z.writer(ti == 0) as txn:
             if ti == 0:
-                txn.replace(dns.name.empty, dns.rdataset.from_text("IN", "SOA", 60, "ns1 host 1 1 1 1 1"))
-                txn.replace(dns.name.empty, dns.rdataset.from_text("IN", "NS", 60, "ns1"))
+                oname = spelled(z, dns.name.empty, False)
+                txn.replace(oname, dns.rdataset.from_text("IN", "SOA", 60, "ns1 host 1 1 1 1 1"))
+                txn.replace(oname, dns.rdataset.from_text("IN", "NS", 60, "ns1"))
             for op in ops:
                 try:
                     apply_wop(txn, op)
@@ -1062,15 +1082,20 @@ def gen_immhist(rng, zk):
             elif x < 8:
                 ops.append([rng.choice(["txt", "a"]), rng.below(len(TREE)), rng.below(1000)])
             elif x < 9:
-                ops.append([rng.choice(["empty", "empty", "vempty", "dellast"]), rng.range(1, len(TREE) - 1), rng.below(1000)])
+                ops.append([rng.choice(["empty", "vempty", "dellast", "rrset", "ttlrd", "delexact"]), rng.range(1, len(TREE) - 1), rng.below(1000)])
             else:
                 ops.append(["deltxt", rng.below(len(TREE)), 0])
         txns.append(ops)
     readers_at = sorted(set([rng.below(ntx)] + ([ntx - 1] if rng.chance(1, 2) else [])))
-    return {"kind": "immhist", "zone": zk, "txns": txns, "readers_at": readers_at, "keep_all": rng.chance(2, 3)}
+    c = {"kind": "immhist", "zone": zk, "txns": txns, "readers_at": readers_at, "keep_all": rng.chance(2, 3)}
+    if rng.chance(1, 3):
+        c["abs"] = True
+    return c
 
 
 IMMHIST_BOUNDARY = [
+    # owner names in the spelling the zone does not store (odd op[2] + index): every writer call form
+    [[["txt", 1, 2], ["a", 2, 1], ["txt", 9, 3]], [["txt", 1, 0], ["rrset", 2, 1], ["ttlrd", 9, 0], ["txt", 5, 0], ["vempty", 6, 1]], [["delexact", 2, 1], ["deltxt", 1, 0], ["txt", 10, 1]]],
     # rdatasets with no rdatas: at a new name, at a name holding only that type, next to other data; via txn and via the
     # writable version; and nodes whose last rdataset is deleted
     [[["txt", 1, 1], ["a", 2, 2], ["txt", 9, 3]], [["empty", 5, 1], ["empty", 9, 1], ["empty", 2, 4], ["vempty", 6, 0]], [["txt", 10, 5]]],
@@ -1211,7 +1236,7 @@ def eval_alias(ctx: Ctx, case: dict):
             kind = op[0]
             try:
                 if kind in ("rds", "rrset", "rdlist"):
-                    name = TREE_NAMES[op[1]]
+                    name = spelled(z, TREE_NAMES[op[1]], (op[2] + op[1]) % 2)
                     o, keep, args = make_input(kind, name, op[2], op[3])
                     (txn.replace if op[4] else txn.add)(*args)
                     for x in keep:
@@ -1496,7 +1521,10 @@ def eval_cow(ctx: Ctx, case: dict):
 
     def observe(txn, base_nodes):
         v = txn.version
-        changed = sorted(idx[n] for n in v.changed)
+        for n in v.changed:
+            if n not in idx:
+                fails.append((f"C11/{zk}/cow/changed-spelling", f"version.changed holds {n}, which is not the key under which the zone stores that node (the caller's spelling was recorded): the node will be committed unfrozen"))
+        changed = sorted(idx[n] for n in v.changed if n in idx)
         fresh = sorted(idx[n] for n, node in v.nodes.items() if node is not base_nodes.get(n))
         for n, node in v.nodes.items():
             if n not in v.changed:
@@ -1534,6 +1562,9 @@ def eval_cow(ctx: Ctx, case: dict):
             except (KeyError, ValueError, dns.exception.DNSException):
                 ctx.count("cow.writer-op-refused")
                 break
+            except BaseException:
+                txn.rollback()  # never leave the zone with an open writer: the next writer() would block for ever
+                raise
             is_cut = dels is not None and name in v.delegations
             effective += 1
             (expected.discard if kind == "del" else expected.add)(name)
@@ -2017,8 +2048,8 @@ def run(ctx: Ctx):
             ctx.count("boundary.alias")
     for zk in ZONES:
         for txns in IMMHIST_BOUNDARY:
-            for ra in ([0], [len(txns) - 1]):
-                c = {"kind": "immhist", "zone": zk, "txns": txns, "readers_at": ra, "keep_all": True}
+            for ra, ab in (([0], False), ([len(txns) - 1], False), ([len(txns) - 1], True)):
+                c = {"kind": "immhist", "zone": zk, "txns": txns, "readers_at": ra, "keep_all": True, "abs": ab}
                 ctx.case(case_key(c))
                 eval_case(ctx, c)
                 ctx.count("boundary.immhist")
